@@ -7,8 +7,10 @@
    For a TRIANGLE in the xy-plane and an in-plane q in generic position the formula is proved equal to the
    Fourier integral of the indicator (C12_triangle_is_fourier_integral); with the fan decomposition this covers
    polygons of any size up to the same modelled step as C04 (a simple polygon's integral = signed sum over its fan).
-   NOT proved: the degenerate directions (q perpendicular to an edge or to a chord: limits of the generic case), planes other
-   than xy for the POLYGON method on its own; those are decided by correspondence with direct quadrature of the defining integral.
+   The same on ANY plane (C12_polygon_any_plane_is_fan_of_fourier_integrals): unit normal n, wave vector projected into the plane as the
+   method does.
+   NOT proved: the degenerate directions (q perpendicular to an edge or to a chord: limits of the generic case); those are decided by
+   correspondence with direct quadrature of the defining integral.
    POLYHEDRA (C12_polyhedron_is_sum_of_cone_fourier_integrals): for every closed, oriented, triangulated surface with unit face normals
    (any plane, any size) the face sum of Polyhedron.compute_form_factor_amplitude equals the sum of the Fourier integrals of the signed
    cone tetrahedra (o, a, b, c), for every apex o and every q generic for the cones; polygonal faces are the sums of their fan
@@ -21,7 +23,7 @@
    textually by the translator. *)
 From Coq Require Import Reals List Lra.
 Require Import Cox.Num.Ops Cox.Geo.Vec Cox.Model.FormFactor Cox.Thm.FormFactorThm Cox.Thm.FormFactorIntegral Cox.Thm.TriangleFF Cox.Thm.PolygonFF Cox.Gen.Scalars Cox.Thm.SphereFF
-  Cox.Model.Mesh Cox.Model.Polygon Cox.Thm.MeshThm Cox.Thm.TetraInt Cox.Thm.FaceFF Cox.Thm.PolyhedronFF.
+  Cox.Model.Mesh Cox.Model.Polygon Cox.Thm.MeshThm Cox.Thm.TetraInt Cox.Thm.FaceFF Cox.Thm.PolyhedronFF Cox.Thm.PolygonFF3.
 Local Open Scope R_scope.
 
 (* F(-q) is the complex conjugate of F(q) *)
@@ -192,3 +194,31 @@ Print Assumptions C12_code_face_term_counterclockwise.
 Example C12_polyhedron_hypotheses_hold :
   (forall f, In f ex_facets -> facet_ok f) /\ closed (map ftri ex_facets) /\ (forall f, In f ex_facets -> generic_cone ex_q ex_o (ftri f)).
 Proof. exact polyhedron_ff_hypotheses_hold. Qed.
+
+
+(* POLYGONS ON ANY PLANE, any size, convex or not: with the wave vector projected into the plane (qpar n q, as the method does), the edge
+   sum is the sum over the fan triangles of  (n . (b-a) x (c-a)) * intint exp(-i q_par . r)  - twice the signed area about n times the
+   Fourier integral over the standard simplex. *)
+Theorem C12_polygon_any_plane_is_fan_of_fourier_integrals :
+  forall (n q a b : vec3 R) (l : list (vec3 R)),
+    vdot Rops n n = 1 -> generic_fan3 n q a b l ->
+    polygon_ff n (qpar n q) (a :: b :: l) = fan3_fourier n q a b l.
+Proof. exact polygon_any_plane_is_fan_of_fourier_integrals. Qed.
+Print Assumptions C12_polygon_any_plane_is_fan_of_fourier_integrals.
+
+Theorem C12_tri3_fourier_is :
+  forall n q a b c,
+    tri3_fourier n q a b c
+    = let p := qpar n q in
+      let A := vdot Rops p a in let be := vdot Rops p (vsub Rops b a) in let ga := vdot Rops p (vsub Rops c a) in
+      cscale (vdot Rops n (vcross Rops (vsub Rops b a) (vsub Rops c a)))
+        (@Coquelicot.RInt.RInt Coquelicot.Hierarchy.R_CompleteNormedModule (fun u =>
+           @Coquelicot.RInt.RInt Coquelicot.Hierarchy.R_CompleteNormedModule (fun v => cos (A + u * be + v * ga)) 0 (1 - u)) 0 1,
+         - @Coquelicot.RInt.RInt Coquelicot.Hierarchy.R_CompleteNormedModule (fun u =>
+           @Coquelicot.RInt.RInt Coquelicot.Hierarchy.R_CompleteNormedModule (fun v => sin (A + u * be + v * ga)) 0 (1 - u)) 0 1).
+Proof. reflexivity. Qed.
+
+Example C12_any_plane_hypotheses_hold :
+  let n : vec3 R := (/ 3, 2 / 3, 2 / 3) in
+  vdot Rops n n = 1 /\ generic_fan3 n (1, 3, 5) (3, 0, 0) (1, 1, 0) ((1, 0, 1) :: (3, -1, 1) :: nil).
+Proof. exact generic_fan3_example. Qed.
